@@ -434,7 +434,7 @@ C12_PAIRS = [('"a b" + "c"', '"ab" + "c"'), ("1 2", "12"), ("a b", "ab"), ("1 + 
 
 
 C12_RO_REFUSED = {"a += 1", "a = 5", "q = 1; q", "a = 1; a", '"x" += 1', "3 = 4", '"a" = 3; a', "a = \"s\"", "zz += 1", "zz *= 2", "a /= 0", "a %= 0", "c -= 1", "x += 1", "a &&= true",
-                  "mn -= 1", "a ^= 0.5", "(a) = 4; a", '"q" = 1; q', '"c" = "s"; c', "zz = zz"} - {"zz = zz"}
+                  "mn -= 1", "a ^= 0.5", '"q" = 1; q', '"c" = "s"; c'}      # only sources whose operands evaluate in EVERY context (literals, string targets)
 
 
 def c12_case(kind, setup, src, then=None):
